@@ -9,7 +9,10 @@ flat declaration is computed the way the property says:
          add() inserts the returned list contiguously (R06.a); cast_to_route_factory turns
          (prefix, Application) into SubApplication(*in_arg);
   R10.b  prefixing composes: BoundRoute.pattern = prefix + route.pattern (the already-bound inner
-         pattern), prefix defaults to '', SubApplication.prefix = prefix.rstrip('/');
+         pattern), prefix defaults to '', SubApplication.prefix = prefix.rstrip('/'); what a bound route derives
+         from a URL pattern (matcher, converters, the names the URL provides) is derived from self.pattern of this
+         binding, never read off / compiled from the route being re-bound (a segment bound by the prefix is provided
+         like any other, as in the flat declaration);
   R10.c  middleware order (= R03.d), resource precedence at bind and request time (= R02.c), built-in
          _application is the outermost binding application; the chain a bound route executes is compiled at that
          binding from the merged list (never taken over from the route being re-bound);
@@ -578,7 +581,10 @@ class KwDict(object):
                 norm(v.func.value) in self.env and depth < 3:
             if not (isinstance(v.args[0], ast.Constant) and v.args[0].value == key):
                 return ('unknown', None, None)
-            how, v2, st2 = self._lookup(self.env[norm(v.func.value)], key, depth + 1)
+            src = self.env[norm(v.func.value)]
+            if src is layers:
+                src = layers[:top]          # d[k] = d.get(k, default): what the dict held before this entry
+            how, v2, st2 = self._lookup(src, key, depth + 1)
             if how == 'caller':
                 return ('default', v.args[1], layers[top][3])
             if how == 'absent':
@@ -1169,6 +1175,57 @@ def _r10b(rep, app, route):
               'bound_apps is not a new list holding the previous chain and then the binding application: %s' % why, route, where)
 
 
+PATTERN_DERIVED = ('regex', 'converters', 'path_args')
+
+
+def _r10b_pattern_derived(rep, repo, route):
+    """What a bound route derives from a URL pattern -- the matcher, the converters, the names the URL provides -- is
+    derived from the pattern of *this* binding (``self.pattern``, the prefixed one): the flat declaration compiles the
+    prefixed pattern, so a segment the prefix binds is matched, converted and offered to the endpoint / middlewares like
+    any other.  The route being re-bound was compiled without this binding's prefix: nothing pattern-derived is read off
+    it (or off the original unbound route), and nothing is compiled from its pattern."""
+    from .c11 import contributions, _ReadCtx, _attr_reads
+    bi = route.func('BoundRoute.__init__')
+    fl = Flow(bi)
+    ps = bi.params()
+    if len(ps) < 3:
+        raise AnalysisError('BoundRoute.__init__: parameters (route, app) not found')
+    ctx = _ReadCtx(bi, fl, {ps[1]: {'route'}, ps[2]: {'app'}})
+    own = fl.aliases('self.pattern')
+    if not fl.defs.get('self.pattern'):
+        raise AnalysisError('BoundRoute.__init__: self.pattern is not assigned here')
+    assigned = [a for a in PATTERN_DERIVED if fl.defs.get('self.%s' % a)]
+    if 'regex' not in assigned and 'converters' not in assigned:
+        raise AnalysisError('BoundRoute.__init__: neither self.regex nor self.converters is assigned here')
+    # (1) nothing pattern-derived is read off the route being re-bound, anywhere in the binding
+    body = [st for st in bi.node.body]
+    for attr in PATTERN_DERIVED:
+        reads, _ = _attr_reads(repo, ctx, body, attr, 'self.%s' % attr)
+        bad = [(k, n) for k, n in reads if k & {'route', 'original'}]
+        rep.check('R10.b', fkey(bi, '%s of this binding' % attr), not bad,
+                  'no .%s of the route being re-bound is read while binding' % attr if not bad else
+                  'BoundRoute.__init__ reads %s, the %s of the route being re-bound: that was derived from the pattern without the prefix '
+                  'of this binding, so a URL segment the prefix binds is not matched / converted / offered to the endpoint and middlewares -- '
+                  'the flat declaration of the prefixed pattern provides it' % (short(bad[0][1], 50) if bad else '', attr),
+                  route, bad[0][1] if bad else bi.node)
+    # (2) what is kept is computed from self.pattern; the only pattern read off a route is the one self.pattern is built on
+    for attr in assigned:
+        slot = 'self.%s' % attr
+        exprs, followed = contributions(fl, bi, slot, stop=own)
+        reads, unfollowed = _attr_reads(repo, ctx, exprs, 'pattern', 'self.pattern')
+        foreign = [(k, n) for k, n in reads if k != {'app'} and not (slot_key(n) in own)]
+        derived = bool(set(followed) & set(own)) or any(slot_key(n) in own for e in exprs for n in ast.walk(e) if isinstance(n, (ast.Name, ast.Attribute)))
+        if not derived and not foreign and unfollowed:
+            raise AnalysisError('BoundRoute.__init__: self.%s is computed by %s, which could not be followed' % (attr, short(unfollowed[0], 40)))
+        ok = derived and not foreign
+        rep.check('R10.b', fkey(bi, 'self.%s from self.pattern' % attr), ok,
+                  'self.%s is derived from self.pattern, the prefixed pattern of this binding' % attr if ok else
+                  ('self.%s is computed from %s, not from self.pattern: the prefix of this binding is missing from what the bound route '
+                   'matches / converts / provides' % (attr, short(foreign[0][1], 50)) if foreign else
+                   'self.%s is not derived from self.pattern (the prefixed pattern of this binding): %s' %
+                   (attr, [short(e, 40) for e in exprs[:2]])), route, foreign[0][1] if foreign else fl.defs[slot][0].stmt)
+
+
 # ------------------------------------------------------------------------------------------------ R10.c (own part)
 def _r10c_chain_compiled_here(rep, route):
     """The chain a bound route executes is compiled at this binding from the middleware list merged at this binding: every
@@ -1361,6 +1418,18 @@ def _r10e_plumbing(rep, app, route, kd):
     ok = how == 'default' and afl.text(v, st) == "getattr(%s, 'rebind_render', True)" % rf
     rep.check('R10.e', fkey(ad, 'rebind_render default'), ok, 'add() defaults rebind_render from the route factory' if ok else
               'add() does not default rebind_render from the factory (%s %s)' % (how, short(v, 40) if v is not None else ''), app, st or ad.node)
+    # whatever add() itself enters into the keyword dict it binds with sits below the caller's keywords: an option the
+    # caller wrote -- False and None included -- is the one the routes are bound with (the opt-outs of the statement)
+    for key in sorted(set(l[1] for l in akd.layers if l[0] in ('key', 'key?')), key=str):
+        how, v, st = akd.lookup(key)
+        if how == 'unknown':
+            raise AnalysisError('Application.add: what the bind keyword %r ends up as could not be established' % (key,))
+        ok = how == 'default'
+        rep.check('R10.e', fkey(ad, 'caller option %s wins' % key), ok, 'add() enters %r only as a default below the caller\'s keywords' % (key,) if ok else
+                  'add() %s the bind option %r with %s whatever the caller passed: an explicit opt-out (False) handed to add() is replaced by the '
+                  'route factory\'s default, so the embedded routes are bound with the embedding application\'s setting although the caller '
+                  'opted out' % ('sometimes overwrites' if how == 'conditional' else 'overwrites', key, short(v, 40) if v is not None else '?'),
+                  app, st or ad.node)
 
 
 def _newest_factory(fl, pr, route, leaf):
@@ -1542,7 +1611,11 @@ def run(rep):
     # ---- R10.b -----------------------------------------------------------
     def prefix_rules():
         _r10b(rep, app, route)
+
+    def pattern_derived():
+        _r10b_pattern_derived(rep, repo, route)
     rep_guard(prefix_rules)
+    rep_guard(pattern_derived)
     rep_guard(rep.floor, 'R10.b', 6)
 
     # ---- R10.c -----------------------------------------------------------
